@@ -209,6 +209,13 @@ def compare_case(draw, tier="quick"):
     b = draw(V.column(kind=kb, min_size=n, max_size=n, dup=draw(st.booleans())))[1]
     if a and b and draw(st.booleans()):
         b = [x if (f and x is not None) else y for x, y, f in zip(a, b, draw(st.lists(st.booleans(), min_size=n, max_size=n)))] if ka == kb else b
+    if ka == kb and ka in ("int", "float") and a and draw(st.integers(0, 3)) == 0:
+        # near-equal operands: identical except for pairs that hash() cannot tell apart
+        twins = {-1: -2, -2: -1, 0: 2 ** 61 - 1, 2 ** 61 - 1: 0, 1: 2 ** 61, 0.0: float(2 ** 61 - 1)}
+        flips = draw(st.lists(st.booleans(), min_size=n, max_size=n))
+        if ka == "int":
+            a = [draw(st.sampled_from([-1, -2, 0, 1, 3, 7])) if x is not None else None for x in a]
+        b = [twins.get(x, x) if (f and x is not None and x in twins) else x for x, f in zip(a, flips)]
     scalar = draw(V.SCALARS[kb])
     return {"ka": ka, "kb": kb, "a": a, "b": b, "scalar": scalar, "wrong_len": draw(st.integers(1, 2))}
 
